@@ -132,6 +132,8 @@ type Sim struct {
 	maxPeriod map[basics.Round]uint64 // highest period seen in honest-originated votes per round
 	batchOwn  map[int][]UVote // own attest votes emitted in the reaction being collected
 	shadowSeq int
+	avv         *agreement.AsyncVoteVerifier
+	avvPool     *simPool
 	known       []kernel.Violation
 	twin        *twin
 	twinSeq     int
@@ -819,6 +821,9 @@ func (s *Sim) asyncStep() {
 	fw[fStarve] = c.WStarve
 	if c.Craft && c.AdvInst > 0 {
 		fw[fCraft] = 15
+		if c.Prop == "C04" {
+			fw[fCraft] = 45 // tampering is the fault this property is about
+		}
 	}
 	fpick := pickW(rFault, fw)
 	if fpick > fNone {
@@ -988,6 +993,10 @@ func (s *Sim) cleanup() {
 			in.pool.Shutdown()
 			in.acc.Close()
 		}(in)
+	}
+	if s.avv != nil {
+		wg.Add(1)
+		go func() { defer wg.Done(); s.avv.Quit(); s.avvPool.Shutdown() }()
 	}
 	done := make(chan struct{})
 	go func() { wg.Wait(); close(done) }()
